@@ -45,6 +45,7 @@ OF OR IN CONNECTION WITH THE SOFTWARE OR THE USE OR OTHER DEALINGS IN THE SOFTWA
 
 
 #include "SimpSMTSolver.h"
+#include <common/VerifTrace.h>
 
 #include <common/ReportUtils.h>
 
@@ -173,6 +174,30 @@ lbool SimpSMTSolver::solve_(bool do_simp, bool turn_off_simp)
         for (int i = 0; i < extra_frozen.size(); i++)
             setFrozen(extra_frozen[i], false);
 
+#ifdef OPENSMT_VERIF
+    if (VERIF_ON()) {
+        auto const & verifLogic = theory_handler.getLogic();
+        for (Var v = 0; v < nVars(); ++v) {
+            PTRef verifTerm = theory_handler.varToTerm(v);
+            if (verifTerm == PTRef_Undef) { continue; }
+            VERIF_TERM(verifLogic, verifTerm);
+            VERIF_LINE("v %p %d %p %u", static_cast<void const *>(static_cast<CoreSMTSolver const *>(this)), v + 1,
+                       static_cast<void const *>(&verifLogic), verifTerm.x);
+        }
+        if (result == l_True) {
+            vec<Lit> verifModel;
+            for (Var v = 0; v < model.size(); ++v) {
+                if (model[v] != l_Undef) { verifModel.push(mkLit(v, model[v] == l_False)); }
+            }
+            VERIF_CLAUSE("a", "sat", verifModel, verifModel.size());
+        } else if (result == l_False) {
+            VERIF_CLAUSE("a", "unsat", assumptions, assumptions.size());
+        } else {
+            VERIF_CLAUSE("a", "unknown", assumptions, 0);
+        }
+    }
+#endif
+
     return result;
 }
 
@@ -184,6 +209,7 @@ lbool SimpSMTSolver::solve_(bool do_simp, bool turn_off_simp)
 bool SimpSMTSolver::addOriginalSMTClause(vec<Lit> && smt_clause, pair<CRef, CRef> & inOutCRefs)
 {
     inOutCRefs = {CRef_Undef, CRef_Undef};
+    VERIF_CLAUSE("d", "add", smt_clause, smt_clause.size());
     assert( config.sat_preprocess_theory == 0 );
 
     // Check that the variables exist in the solver
@@ -281,6 +307,7 @@ bool SimpSMTSolver::strengthenClause(CRef cr, Lit l)
         updateElimHeap(var(l));
     }
 
+    VERIF_CLAUSE("d", "strengthen", c, c.size());
     return c.size() == 1 ? enqueue(c[0]) && propagate() == CRef_Undef : true;
 }
 
